@@ -881,8 +881,10 @@ Proof.
   intros E0 E1 E2 E3 E4 E5. cbv zeta.
   (* shift the epoch to 0 *)
   assert (S : forall g : R -> R, ex_derive g t0 -> ex_derive (fun s => g (t0 + s)) 0).
-  { intros g [l Hg]. exists l. auto_derive; [|ring].
-    replace (t0 + 0) with t0 by ring. eexists; exact Hg. }
+  { intros g [l Hg]. exists l. auto_derive.
+    - replace (t0 + 0) with t0 by ring. eexists; exact Hg.
+    - replace (t0 + 0) with t0 by ring.
+      assert (E : Derive (fun x => g x) t0 = l) by (apply is_derive_unique; exact Hg). rewrite E. ring. }
   pose proof (increments_consistent_rate (fun s => w0 (t0 + s)) (fun s => w1 (t0 + s)) (fun s => w2 (t0 + s))
                 (fun s => f0 (t0 + s)) (fun s => f1 (t0 + s)) (fun s => f2 (t0 + s))
                 (S _ E0) (S _ E1) (S _ E2) (S _ E3) (S _ E4) (S _ E5)) as H.
